@@ -31,6 +31,7 @@ Absent == [present |-> FALSE]
 \* settings that end up in the parser's cache string (everything but the output path)
 ParserCacheKeys == {"yacckind", "recoverer", "sformat", "eoc", "wae", "showw", "vis", "edition", "mod_name"}
 LexerKeys == {"lex_vis", "lex_mod_name", "case_insensitive", "dot_matches_new_line"}
+\* (lex_wae - the lexer builder's warnings_are_errors - decides success, not content)
 POpts(o) == [k \in ParserCacheKeys |-> o[k]]
 LOpts(o) == [k \in LexerKeys |-> o[k]]
 
@@ -81,7 +82,8 @@ BuildBoth(GInfo, LInfo) ==
        /\ pout' = r.out
        /\ clock' = clock + 1 /\ UNCHANGED <<gv, gm, lv, lm, opts>>
        /\ IF ~r.ok THEN lout' = Absent /\ last' = [ok |-> FALSE, regenerated |-> FALSE, stage |-> "parser"]
-          ELSE IF li.names # GInfo[gv].names
+          ELSE IF \/ GInfo[gv].names \ li.names # {}                       \* tokens missing from the lexer
+                  \/ (li.names \ GInfo[gv].names # {} /\ opts["lex_wae"])      \* unknown lexer tokens, as errors
           THEN lout' = Absent /\ last' = [ok |-> FALSE, regenerated |-> FALSE, stage |-> "sync"]
           ELSE /\ lout' = [present |-> TRUE, src |-> lv, opts |-> LOpts(opts), tok |-> GInfo[gv].tok]
                /\ last' = [ok |-> TRUE, regenerated |-> r.regenerated, stage |-> "done"]
